@@ -2,10 +2,12 @@ import PrimaiteModel.Model.Route
 import PrimaiteModel.Model.Forward
 import PrimaiteModel.Props.C08Addressee
 import PrimaiteModel.Props.C08Termination
+import PrimaiteModel.Model.RouteMetric
 open Primaite Primaite.Route Primaite.Forward
 
 structure D where
   tbl : Table := {}
+  tblM : List RouteM := []
   net : St := {}
 
 def fuelMax : Nat := 200000
@@ -67,6 +69,23 @@ def step (d : D) : List String → D × String
     match parseIp dst with
     | some dst => (d, showResult (findBestRoute d.tbl dst))
     | none => (d, "bad-op")
+  -- route table with float metrics (inf / -inf / nan / 2 x finite value)
+  | ["rtm-new"] => ({ d with tblM := [] }, "ok")
+  | ["rtm-add", a, m, nh, me] =>
+    let metric : Option Metric := match me with
+      | "inf" => some .inf | "-inf" => some .ninf | "nan" => some .nan
+      | x => x.toInt?.map Metric.fin
+    match parseIp a, parseIp m, parseIp nh, metric with
+    | some a, some m, some nh, some me => ({ d with tblM := d.tblM ++ [{ addr := a, mask := m, nextHop := nh, metric := me }] }, "ok")
+    | _, _, _, _ => (d, "bad-op")
+  | ["rtm-find", dst] =>
+    match parseIp dst with
+    | some dst =>
+      (d, match findBestM d.tblM dst with
+          | none => "raised"
+          | some none => "none"
+          | some (some (i, r)) => s!"route {i} {showIp r.nextHop}")
+    | none => (d, "bad-op")
   -- network core
   | ["net-new"] => ({ d with net := {} }, "ok")
   | ["node", k, on, gw] =>
@@ -112,6 +131,57 @@ def step (d : D) : List String → D × String
       let ok := ladder.find? (fun k => !(runOp k { d.net with oof := false } (.ping n ip cnt)).1.oof)
       (d, match ok with | some k => s!"{k}" | none => "none")
     | _, _, _ => (d, "bad-op")
+  | ["app", n, ip, svc, reply] =>
+    match n.toNat?, parseIp ip, svc.toNat?, parseBool reply with
+    | some n, some ip, some svc, some reply =>
+      let (st, ok) := runOp fuelMax d.net (.app n ip svc reply)
+      let (st, evs) := flush st
+      ({ d with net := st }, s!"{showBool ok} {evs}")
+    | _, _, _, _ => (d, "bad-op")
+  | ["appif", n, ip, svc, reply] =>
+    -- a request the client software only makes on an established connection (an answer from the service was received before)
+    match n.toNat?, parseIp ip, svc.toNat?, parseBool reply with
+    | some n, some ip, some svc, some reply =>
+      if ((d.net.node? n).map (fun nd => nd.got.contains svc)).getD false then
+        let (st, ok) := runOp fuelMax d.net (.app n ip svc reply)
+        let (st, evs) := flush st
+        ({ d with net := st }, s!"{showBool ok} {evs}")
+      else (d, "0 ")
+    | _, _, _, _ => (d, "bad-op")
+  | ["ftp", n, ip, srv] =>
+    -- FTPClient.send_file as a composition of `runOp` steps: PORT (retried once when the server did not acknowledge it), STOR,
+    -- QUIT (the only command answered with a frame); the client reads the acknowledgements off the shared payload object =
+    -- the server node's `acks`.  Result: the QUIT was processed.
+    match n.toNat?, parseIp ip, srv.toNat? with
+    | some n, some ip, some srv =>
+      let acked (st : St) : Nat := ((st.node? srv).map (fun nd => nd.acks.length)).getD 0
+      let step (st : St) (reply : Bool) : St × Bool :=
+        let a0 := acked st
+        let st' := (runOp fuelMax st (.app n ip 21 reply)).1
+        (st', decide (a0 < acked st'))
+      let (s1, c1) := step d.net false
+      let (s2, c2) := if c1 then (s1, true) else step s1 false
+      if !c2 then
+        let (st, evs) := flush s2
+        ({ d with net := st }, s!"0 {evs}")
+      else
+        let (s3, c3) := step s2 false
+        if !c3 then
+          let (st, evs) := flush s3
+          ({ d with net := st }, s!"0 {evs}")
+        else
+          let (s4, c4) := step s3 true
+          let (st, evs) := flush s4
+          ({ d with net := st }, s!"{showBool c4} {evs}")
+    | _, _, _ => (d, "bad-op")
+  | ["setport", n, svc] =>
+    match n.toNat?, svc.toNat? with
+    | some n, some svc => ({ d with net := d.net.modNode n (fun nd => { nd with ports := nd.ports ++ [svc] }) }, "ok")
+    | _, _ => (d, "bad-op")
+  | ["setserve", n, svc] =>
+    match n.toNat?, svc.toNat? with
+    | some n, some svc => ({ d with net := d.net.modNode n (fun nd => { nd with serves := nd.serves ++ [svc] }) }, "ok")
+    | _, _ => (d, "bad-op")
   | ["setflag", n] =>
     match n.toNat? with
     | some n => ({ d with net := d.net.modNode n (fun nd => { nd with flag := true }) }, "ok")
